@@ -97,6 +97,19 @@ Proof.
        c_single_fixed_be c_sbl tt_true andb]. apply forallb_tt.
 Qed.
 
+Lemma altblock_full : c11_full c_altblock.
+Proof. apply c11_full_of; [apply c_altblock_ok|intros [] _; reflexivity]. Qed.
+Lemma keystones_full : c11_full c_keystones.
+Proof. apply c11_full_of; [apply c_keystones_ok|intros [] _; reflexivity]. Qed.
+Lemma ctxinfo_full : c11_full c_ctxinfo.
+Proof. apply c11_full_of; [apply c_ctxinfo_ok|intros [? []] _; reflexivity]. Qed.
+Lemma authctx_full : c11_full c_authctx.
+Proof. apply c11_full_of; [apply c_authctx_ok|intros [[? []] ?] _; reflexivity]. Qed.
+Lemma altblock_c06 : c06_ok c_altblock. Proof. apply c_altblock_ok. Qed.
+Lemma keystones_c06 : c06_ok c_keystones. Proof. apply c_keystones_ok. Qed.
+Lemma ctxinfo_c06 : c06_ok c_ctxinfo. Proof. apply c_ctxinfo_ok. Qed.
+Lemma authctx_c06 : c06_ok c_authctx. Proof. apply c_authctx_ok. Qed.
+
 Section WithAddr.
   Variable addr_ok : Z -> list byte -> bool.
   Lemma address_full : c11_full (c_address addr_ok).
